@@ -418,4 +418,57 @@ Proof.
   destruct G as (s1' & G1 & G2). exists s', f', s1'. auto.
 Qed.
 
+(* ---- the chain placed AFTER an overflow insn: the flags are gone ------------------------------- *)
+(* (simplify_op keeps the address arithmetic of a memory RESULT operand of ADDO..UMULOS in front of
+   the insn; behind it the MOV/MUL/ADD of the chain stand between the insn and the branch that reads
+   its flags) *)
+
+Lemma run_chain_flags_none : forall cs s f rest,
+  st_frames s = f :: rest ->
+  chain_ok (defd (fr_regs f)) cs = true ->
+  cs <> [] ->
+  forall s' f', run_chain s f cs = Some (s', f') -> st_flags s' = None.
+Proof.
+  induction cs as [|c r IH]; intros s f rest Hfr Hok Hne s' f' Hrun; [congruence|].
+  cbn [chain_ok] in Hok. apply andb_prop in Hok. destruct Hok as [Hsrc Hok].
+  pose (v := V (cexec (bits_of (fr_regs f)) c (cdst c)) Def).
+  pose (f1 := next_pc (set_reg f (cdst c) v)).
+  pose (s1 := upd_top s f1 (st_mem s) None).
+  assert (Hfr1 : st_frames s1 = f1 :: rest).
+  { unfold s1, upd_top. cbn [st_frames]. rewrite Hfr. reflexivity. }
+  assert (Hok1 : chain_ok (defd (fr_regs f1)) r = true).
+  { rewrite <- Hok. apply chain_ok_ext. intros x. unfold f1, next_pc, set_pc, set_reg, v. cbn [fr_regs].
+    apply defd_add. }
+  cbn [run_chain] in Hrun. rewrite (step_c s f c Hsrc) in Hrun. fold v in Hrun. fold f1 in Hrun. fold s1 in Hrun.
+  rewrite Hfr1 in Hrun.
+  destruct r as [|c2 r2].
+  - cbn [run_chain] in Hrun. inversion Hrun; subst s'. reflexivity.
+  - apply (IH s1 f1 rest Hfr1 Hok1 ltac:(discriminate) s' f' Hrun).
+Qed.
+
+Lemma flag_branch_needs_flags : forall s f o l,
+  In o [BO; BNO; UBO; UBNO] -> st_flags s = None ->
+  exec_insn isem prog regions s f (I o [Olabel l]) = Fail E_flags.
+Proof.
+  intros s f o l Ho Hfl. cbn [In] in Ho.
+  destruct Ho as [E|[E|[E|[E|[]]]]]; subst o; cbn [exec_insn val_op br_op]; rewrite Hfl; reflexivity.
+Qed.
+
+Theorem result_address_after_overflow_insn : forall m t s f rest cs a,
+  st_frames s = f :: rest ->
+  defd_opt (fr_regs f) (m_base m) -> defd_opt (fr_regs f) (m_index m) ->
+  lower m t = (cs, Some a) -> cs <> [] ->
+  exists s' f',
+    run_chain s f cs = Some (s', f') /\ st_flags s' = None /\
+    forall o l, In o [BO; BNO; UBO; UBNO] ->
+                exec_insn isem prog regions s' f' (I o [Olabel l]) = Fail E_flags.
+Proof.
+  intros m t s f rest cs a Hfr Hb Hi Hlow Hne.
+  pose proof (lower_chain_ok m t (fr_regs f) Hb Hi) as Hok. rewrite Hlow in Hok. cbn [fst] in Hok.
+  destruct (run_chain_sim cs s f rest Hfr Hok) as (s' & f' & Hrun & _).
+  pose proof (run_chain_flags_none cs s f rest Hfr Hok Hne s' f' Hrun) as Hfl.
+  exists s', f'. split; [exact Hrun|]. split; [exact Hfl|].
+  intros o l Ho. apply flag_branch_needs_flags; assumption.
+Qed.
+
 End WithSem.
